@@ -269,10 +269,13 @@ def case_line(case):
     return " ".join(str(x) for x in case)
 
 
-def _run_sharded(exe, lines, nshards=NPROC, timeout=3600, env=None):
+def _run_sharded(exe, lines, nshards=NPROC, timeout=3600, env=None, per_shard=200):
+    """per_shard: minimum number of cases worth a process of its own (modules with expensive
+    cases lower it through CASES_PER_SHARD, see runner.Ctx)"""
     if not lines:
         return []
-    nshards = max(1, min(nshards, (len(lines) + 199) // 200))
+    per_shard = max(1, per_shard)
+    nshards = max(1, min(nshards, (len(lines) + per_shard - 1) // per_shard))
     chunks = [lines[i::nshards] for i in range(nshards)]
     outs = [None] * nshards
     errs = []
@@ -300,6 +303,12 @@ def _run_sharded(exe, lines, nshards=NPROC, timeout=3600, env=None):
                 # the process died on some case: find it by bisection-free replay
                 res = _run_one_by_one(exe, chunks[i], env)
             outs[i] = res
+        except subprocess.TimeoutExpired:
+            # some case of this shard hangs: replay one by one, the hanging ones become TIMEOUT lines
+            try:
+                outs[i] = _run_one_by_one(exe, chunks[i], env)
+            except Exception as e:  # noqa
+                errs.append(repr(e))
         except Exception as e:  # noqa
             errs.append(repr(e))
     th = [threading.Thread(target=work, args=(i,)) for i in range(nshards)]
